@@ -1,4 +1,59 @@
-(* placeholder until the proofs are re-homed *)
-From Coq Require Import QArith.
-Example C01_placeholder : (1 + 1 == 2)%Q.
-Proof. reflexivity. Qed.
+(* PROPERTY C01: for every valid knot vector, control-point list and (optional) positive weight
+   list, and every parameter u in [umin, umax], curve(u) equals sum_i R_i(u) * P_i with
+   R_i = w_i N_i,p / sum_k w_k N_k,p and N the Cox-de Boor B-spline (Spec/BSpline.v:
+   right-continuous at interior knots, left limit at umax), exactly; a sequence of parameters
+   yields one point per node in order, and a parameter outside the interval gives ValueError.
+   Statements only; the proofs live in Proofs/EvalProofs.v (on top of Proofs/Table.v,
+   Proofs/BasisTheory.v, Proofs/KVProofs.v). *)
+From Coq Require Import QArith List Bool Arith.
+From NurbsV Require Import Base.Res Base.QList Spec.KnotSpec Spec.BSpline Model.KV Model.Basis Model.CurveM.
+From NurbsV Require Import Proofs.EvalProofs.
+Import ListNotations.
+Open Scope Q_scope.
+
+Theorem C01_eval_spline : forall (c : curve) (P : list (list Q)) (d : nat),
+  cP c = Some P -> WF (kvec (ckv c)) (cdeg c) -> length P = cnpts c ->
+  Forall (fun pt : list Q => length pt = d) P -> pdim P = d ->
+  forall u, cW c = None -> kvalid1 (ckv c) u = true ->
+  exists v, curve_eval1 c u = Ok v /\
+            Forall2 Qeq v (curve_spec (kvec (ckv c)) (cdeg c) d P u).
+Proof. exact EvalProofs.C01_eval_spline. Qed.
+Print Assumptions C01_eval_spline.
+
+Theorem C01_eval_rational : forall (c : curve) (P : list (list Q)) (d : nat),
+  cP c = Some P -> WF (kvec (ckv c)) (cdeg c) -> length P = cnpts c ->
+  Forall (fun pt : list Q => length pt = d) P -> pdim P = d ->
+  forall Wt u, cW c = Some Wt -> length Wt = cnpts c -> Forall (fun w => 0 < w) Wt ->
+  kvalid1 (ckv c) u = true ->
+  exists v, curve_eval1 c u = Ok v /\
+            Forall2 Qeq v (rational_spec (kvec (ckv c)) (cdeg c) d Wt P u).
+Proof. exact EvalProofs.C01_eval_rational. Qed.
+Print Assumptions C01_eval_rational.
+
+(* the weight function of positive weights has no zero on the interval *)
+Theorem C01_weight_function_positive : forall U p Wt u,
+  WF U p -> in_range U p u = true -> length Wt = npts_of U p -> Forall (fun w => 0 < w) Wt ->
+  0 < weight_spec U p Wt u.
+Proof. exact EvalProofs.weight_spec_pos. Qed.
+Print Assumptions C01_weight_function_positive.
+
+Theorem C01_eval_outside : forall (c : curve) (P : list (list Q)),
+  cP c = Some P -> forall u, kvalid1 (ckv c) u = false -> curve_eval1 c u = Err ValueError.
+Proof. exact EvalProofs.C01_eval_outside. Qed.
+Print Assumptions C01_eval_outside.
+
+Theorem C01_eval_seq : forall (c : curve) (P : list (list Q)),
+  cP c = Some P -> forall us, curve_eval c us = mapM (curve_eval1 c) us.
+Proof. exact EvalProofs.C01_eval_seq. Qed.
+Print Assumptions C01_eval_seq.
+
+(* the parameter test of the model is the interval test of the specification *)
+Theorem C01_valid_is_in_range : forall k u, kvalid1 k u = in_range (kvec k) (kdeg k) u.
+Proof. exact KVProofs.kvalid1_in_range. Qed.
+Print Assumptions C01_valid_is_in_range.
+
+(* non-vacuity: a rational degree-2 curve in dimension 2 with a repeated end, evaluated at umax *)
+Example C01_nonvacuous :
+  exists v, curve_eval1 ex_curve 1 = Ok v /\
+  Forall2 Qeq v (rational_spec (kvec ex_kv) 2 2 ex_W ex_P 1).
+Proof. exact ex_rational_umax. Qed.
